@@ -1,9 +1,11 @@
 package rules
 
 import (
-	"sort"
 	"go/ast"
+	"go/constant"
+	"go/parser"
 	"go/token"
+	"sort"
 	"go/types"
 	"strings"
 
@@ -50,6 +52,7 @@ func runC12(p *core.Program, r *core.Report) {
 		}
 		universeWriteScan(p, r, "R5", reach)
 	}
+	c12R6(p, r)
 }
 
 // isCommentGroupMap: map[fileLine]*ast.CommentGroup field
@@ -238,11 +241,37 @@ func c12R1R3(p *core.Program, r *core.Report, np *core.Func) {
 				continue
 			}
 			trailing := tv.Value.String() == "true"
+			// the position a group is entered under is the position of the node that owns it (`x.Doc` / `x.Comment` with
+			// `x.Pos()`, a bare group with its own Pos()): the position of another node files the comment under a line it
+			// does not belong to
+			// posOwner: per (expanded) call site, the node whose Pos() is passed - `X.Pos()` with X looked through the
+			// parameters of a wrapper closure
+			posOwner := map[*ast.CallExpr]ast.Expr{}
+			if pc, isCall := ast.Unparen(c.Args[2]).(*ast.CallExpr); isCall && len(pc.Args) == 0 {
+				if psel, isSel := ast.Unparen(pc.Fun).(*ast.SelectorExpr); isSel && psel.Sel.Name == "Pos" {
+					for _, ps := range expandParam(p, f, psel.X, c, 0) {
+						posOwner[ps.Call] = ps.E
+					}
+				}
+			}
 			for _, site := range expandParam(p, f, c.Args[0], c, 0) {
 				arg := ast.Unparen(site.E)
 				construct := "collect(" + core.ExprStr(arg) + ", isTrailing=" + tv.Value.String() + ")"
 				if site.F != f {
 					construct += " via " + core.ExprStr(site.Call.Fun)
+				}
+				{
+					var owner ast.Expr = arg
+					if sel, ok := arg.(*ast.SelectorExpr); ok && (sel.Sel.Name == "Doc" || sel.Sel.Name == "Comment") {
+						owner = sel.X
+					}
+					sinfo := site.F.Info()
+					okPos := false
+					if po, has := posOwner[site.Call]; has && core.SameRef(sinfo, po, owner) {
+						okPos = true
+					}
+					r.Check(okPos, "R1", site.F, "position of "+construct, site.Call.Pos(), "the group is entered under the position of the node that owns it",
+						"the comment group "+core.ExprStr(arg)+" is entered under the position of something else than its owner: it is found as the doc (or trailing comment) of whatever sits on that other line, and replaces that declaration's own comment (first entry wins)")
 				}
 				if sel, ok := arg.(*ast.SelectorExpr); ok {
 					switch sel.Sel.Name {
@@ -1431,4 +1460,89 @@ func splitAtFirstSeparator(sk *core.Func) bool {
 		}
 	}
 	return keyWrite || keyCut
+}
+
+// c12R6: "for all source files": every file of the universe is parsed with its comments. go/packages keeps comments by
+// default; a ParseFile hook in the loader's configuration replaces that default. Decided over pkg/types: no
+// packages.Config gets a ParseFile hook, or every go/parser.ParseFile call of the hook has a constant mode with the
+// ParseComments bit.
+func c12R6(p *core.Program, r *core.Report) {
+	const rule = "R6"
+	r.Floor(rule, 1)
+	n := 0
+	hooks := 0
+	check := func(f *core.Func, hook ast.Expr, pos token.Pos) {
+		hooks++
+		info := f.Info()
+		var body ast.Node
+		switch h := ast.Unparen(hook).(type) {
+		case *ast.FuncLit:
+			body = h.Body
+		default:
+			if fn, ok := info.ObjectOf(identOf(h)).(*types.Func); ok {
+				if hf := p.FuncOfObj(fn); hf != nil {
+					body = hf.Body
+					info = hf.Info()
+				}
+			}
+		}
+		if body == nil {
+			r.Unknown(rule, f, "the loader's ParseFile hook keeps comments", pos, "the hook is not a function of the module: whether it parses with comments cannot be seen")
+			return
+		}
+		calls := core.CallsTo(info, body, true, "go/parser.ParseFile", "go/parser.ParseDir")
+		ok := len(calls) > 0
+		for _, c := range calls {
+			keeps := false
+			if len(c.Args) >= 4 {
+				if tv, has := info.Types[c.Args[len(c.Args)-1]]; has && tv.Value != nil {
+					if v, exact := constant.Uint64Val(constant.ToInt(tv.Value)); exact {
+						keeps = v&uint64(parser.ParseComments) != 0
+					}
+				}
+			}
+			ok = ok && keeps
+		}
+		r.Check(ok, rule, f, "the loader's ParseFile hook keeps comments", pos, "every parse of the hook has a constant mode with ParseComments",
+			"the loader installs its own ParseFile hook and that hook can parse a file without ParseComments (the mode is computed or lacks the bit): Doc and Comment answer nothing for every declaration of such a file although the comments are in the source")
+	}
+	for _, f := range p.Funcs() {
+		if f.Body == nil || core.RelPkg(f.Pkg.PkgPath) != "pkg/types" {
+			continue
+		}
+		info := f.Info()
+		ast.Inspect(f.Body, func(m ast.Node) bool {
+			if lit, ok := m.(*ast.FuncLit); ok && lit != f.Lit {
+				return false
+			}
+			switch x := m.(type) {
+			case *ast.CompositeLit:
+				if core.NamedTypeName(info.TypeOf(x)) != "golang.org/x/tools/go/packages.Config" {
+					return true
+				}
+				n++
+				for _, el := range x.Elts {
+					if kv, ok := el.(*ast.KeyValueExpr); ok {
+						if id, isID := kv.Key.(*ast.Ident); isID && id.Name == "ParseFile" {
+							check(f, kv.Value, kv.Pos())
+						}
+					}
+				}
+			case *ast.AssignStmt:
+				for i, l := range x.Lhs {
+					if sel, ok := ast.Unparen(l).(*ast.SelectorExpr); ok && sel.Sel.Name == "ParseFile" && core.NamedTypeName(info.TypeOf(sel.X)) == "golang.org/x/tools/go/packages.Config" && i < len(x.Rhs) {
+						check(f, x.Rhs[i], x.Pos())
+					}
+				}
+			}
+			return true
+		})
+	}
+	if n == 0 {
+		r.Anchor(rule, "the packages.Config literal of the loader in pkg/types")
+		return
+	}
+	if hooks == 0 {
+		r.OK(rule, &core.Func{Pkg: p.Pkg("pkg/types"), Name: "<package>"}, "files are parsed by go/packages' default parser", 0, "no ParseFile hook is installed: the default keeps comments (parser.AllErrors|parser.ParseComments)")
+	}
 }
